@@ -9,6 +9,7 @@ import (
 	"github.com/evolbioinfo/goalign/io/fasta"
 	"github.com/evolbioinfo/gotree/acr"
 	"github.com/evolbioinfo/gotree/asr"
+	"github.com/evolbioinfo/gotree/io/newick"
 	"github.com/evolbioinfo/gotree/tree"
 )
 
@@ -147,6 +148,87 @@ func c12(c *Sexp) *Sexp {
 			obs.List = append(obs.List, KV("sites", sites))
 		}
 		return obs
+	case "hist":
+		// the tree has a history: parsed from Newick text (nodes carry parser ids), then edited through
+		// the public API; it is dumped just before the reconstruction ("pre"), which the judge takes as input
+		parse := func() (*tree.Tree, error) {
+			return newick.NewParser(strings.NewReader(c.Str("newick"))).Parse()
+		}
+		t, perr := parse()
+		if perr != nil {
+			return L(KV("panic", A("newick: "+perr.Error())))
+		}
+		keys, vals := c12Pairs(c.Get("states"))
+		tipstates := make(map[string]string)
+		for i, k := range keys {
+			tipstates[k] = vals[i]
+		}
+		algo := c12AcrAlgo(c.Str("algo"))
+		// the same reconstruction on the tree as parsed (for the rooting-independence clause)
+		steps0 := -1
+		if t0, e0 := parse(); e0 == nil {
+			if _, n0, e1 := acr.ParsimonyAcr(t0, tipstates, algo, false); e1 == nil {
+				steps0 = n0
+			}
+		}
+		operr := ""
+		if ops := c.Get("ops"); ops != nil {
+			for _, op := range ops.List {
+				if !op.IsList || len(op.List) == 0 {
+					continue
+				}
+				args := []string{}
+				for _, a := range op.List[1:] {
+					args = append(args, a.Atom)
+				}
+				var e error
+				switch op.List[0].Atom {
+				case "outgroup":
+					e = t.RerootOutGroup(false, false, args...)
+				case "midpoint":
+					e = t.RerootMidPoint()
+				case "resolve":
+					sd, _ := strconv.Atoi(args[0])
+					rand.Seed(int64(sd))
+					t.Resolve()
+				case "reroot":
+					i, _ := strconv.Atoi(args[0])
+					nodes := t.Nodes()
+					if i < len(nodes) {
+						e = t.Reroot(nodes[i])
+					}
+				case "graft":
+					i, _ := strconv.Atoi(args[0])
+					edges := t.Edges()
+					if len(edges) > 0 {
+						n := t.NewNode()
+						n.SetName(args[1])
+						_, _, _, e = t.GraftTipOnEdge(n, edges[i%len(edges)])
+					}
+				case "prune":
+					e = t.RemoveTips(false, args...)
+				case "collapse":
+					t.CollapseShortBranches(0.25, false, false)
+				}
+				if e != nil && operr == "" {
+					operr = op.List[0].Atom + ": " + e.Error()
+				}
+			}
+		}
+		pre, preaudit := ObserveTree(t)
+		statemap, nsteps, err := acr.ParsimonyAcr(t, tipstates, algo, false)
+		mkeys := make([]string, 0, len(statemap))
+		for k := range statemap {
+			mkeys = append(mkeys, k)
+		}
+		sort.Strings(mkeys)
+		m := L()
+		for _, k := range mkeys {
+			m.List = append(m.List, L(A(k), A(statemap[k])))
+		}
+		d, audit := ObserveTree(t)
+		return L(KV("err", A(errStr(err))), KV("steps", I(nsteps)), KV("map", m), KV("tree", d), KV("audit", audit),
+			KV("pre", pre), KV("preaudit", preaudit), KV("operr", A(operr)), KV("steps0", I(steps0)))
 	case "star":
 		// a star tree with n tip children, built here (the case only gives the number of tips per state):
 		// state i is carried by counts[i] tips; observed: steps, the states of the root, the number of
